@@ -30,14 +30,15 @@ def run(m, chk):
         "commit is last; the committed points depend on points, nodes, knot vector and weights (rational bases included, ARG-FLOW at the fitfunc call); fit_function samples the function at exactly the nodes it passes on. "
         "The normal equations, interpolation and reproduction are not decided."
     )
-    chk.decides = ["GATE-COUNT", "COMMIT-LAST", "DEP-MAY", "ARG-FLOW", "SAME-NODES", "PURE", "ONE-NODE-FAMILY (the default nodes of fit_points do not depend on the number type)"]
+    chk.decides = ["GATE-COUNT", "COMMIT-LAST", "DEP-MAY", "ARG-FLOW", "SAME-NODES", "PURE", "ONE-NODE-FAMILY (the default nodes of fit_points do not depend on the number type)", "PRECOND-LB (len(points) = 1 does not trip the node generator's assertion)"]
     chk.not_decided = ["residual orthogonal to the collocation columns", "interpolation when len(points) = npts", "reproduction of curves of the same space"]
     count_gate(r, chk, FP, "points", lambda ctx: [ctx.cfg.nodes[w] for w in r.write_nodes(ctx, 0)])
     count_gate(r, chk, HF, "nodes", lambda ctx: [n for n in r.stmt_nodes(ctx) if isinstance(n.ast, ast.Return)])
     r.commit_last("COMMIT-LAST", FP)
-    from .extra import one_node_family
+    from .extra import one_node_family, precond_lb
 
     one_node_family(r, chk, FP)
+    precond_lb(r, chk, [FP, FF])
     committed_deps(r, chk, FP, CURVE_FIELDS[1], ["points", "nodes", "self.knotvector", "self.weights"])
     arg_flow(r, chk, "ARG-FLOW", FP, "LeastSquare.fit_function", "weights", ["self.weights"], what="a rational curve must be fitted with its rational basis")
     arg_flow(r, chk, "ARG-FLOW", FP, "LeastSquare.fit_function", "nodes", ["nodes"])
